@@ -51,6 +51,10 @@ def cases(tier, seed):
         for f in ("box64", "ellipse", "tee", "notched"):
             for mel, mp, sm, xi in ((0.6, None, 0, 1.0), (1.0, 300, 0, 1.0), (1.0, None, 2, 1.0), (1.0, None, 0, 0.5), (1.0, None, 0, 2.0), (0.6, None, 2, 2.0)):
                 out.append(dict(film=f, holes="circle", terminals=2, mel=mel, min_points=mp, smooth=sm, xi=xi))
+        # histories: the checked mesh is not the first one made for the device object
+        for f in ("box33", "tee", "notched"):
+            for hist in ("remesh_finer", "remesh_coarser", "translated_inplace"):
+                out.append(dict(film=f, holes="circle", terminals=2, mel=0.8, min_points=None, smooth=0, xi=1.0, history=hist))
     else:
         # terminals do not influence the mesh: the settings sweep is run with terminals, the no-terminal devices once
         for f, h in itertools.product(FILMS, HOLES):
@@ -127,8 +131,15 @@ def run_case(case):
     res.key = case_key(case)
     dev = build_device(case)
     xi = case["xi"]
+    hist = case.get("history")
     try:
+        if hist in ("remesh_finer", "remesh_coarser"):
+            dev.make_mesh(max_edge_length=(1.4 if hist == "remesh_finer" else 0.45) * xi, smooth=1)
+            _ = dev.mesh.areas.sum(), dev.terminal_info(), dev.points
         dev.make_mesh(max_edge_length=case["mel"] * xi, min_points=case["min_points"], smooth=case["smooth"])
+        if hist == "translated_inplace":
+            _ = dev.terminal_info(), dev.points, dev.triangulation
+            dev.translate(dx=1.7, dy=-0.9, inplace=True)
     except ValueError as exc:
         if "Malformed Voronoi cell" in str(exc):
             # the library refuses to build a dual mesh for this triangulation (documented advice: resample the outline)
